@@ -25,8 +25,8 @@ export function* generate({ tier, seed }) {
     const expr = encodeMap(rng, M, rng.int(4), out);
     const order = rng.pick(['before', 'before', 'after', 'mixed']);
     const local = rng.bool(0.3) ? rng.pick(['fnDecl', 'arrow', 'fnExpr', 'iife', 'objMethod', 'classMethod', 'afterReturnless']) : false;
-    const fnForm = rng.pick(['arrow', 'arrow', 'function', 'arrowDestructure']);
-    const setup = fnForm === 'arrow' ? `(props: ${expr}) => () => null` : fnForm === 'function' ? `function (props: ${expr}) { return () => null; }` : `({ ...rest }: ${expr}) => () => null`;
+    const fnForm = rng.pick(['arrow', 'arrow', 'function', 'arrowDestructure', 'arrowDestructureDefault', 'functionDestructureDefault']);
+    const setup = fnForm === 'arrowDestructureDefault' ? `({ ...rest }: ${expr} = {} as any) => () => null` : fnForm === 'functionDestructureDefault' ? `function ({ ...rest }: ${expr} = {} as any) { return () => null; }` : fnForm === 'arrow' ? `(props: ${expr}) => () => null` : fnForm === 'function' ? `function (props: ${expr}) { return () => null; }` : `({ ...rest }: ${expr}) => () => null`;
     const src = assembleModule(rng, { decls: out.decls, call: `defineComponent(${setup})`, order, local });
     yield {
       gid: `C16-${i}`, src, syntax: 'tsx', spec: { expected: M.map((m) => ({ key: m.key, required: !m.optional, member: m.member })) },
